@@ -2,7 +2,7 @@
    Model: Model/HeadShift.v, a model of ShiftFormula (theory/head.py): shifting a head formula from its origin step s to
    the current step s+d, with until/release unrolled and parts behind the current step read classically. *)
 From Coq Require Import List Bool Arith ZArith Lia.
-Require Import HeadShift.
+Require Import HeadShift HeadComplete.
 (* at the origin step the shifted formula is classically the formula itself *)
 Theorem C04_shift_origin_classical : forall (A : Type) (h : nat) (T : trace A) (p : hf A) (k : nat), k <= h ->
   ssat A h T T (shift A p 0) k = csat A h T p k.
@@ -12,5 +12,30 @@ Proof. exact shift0_classical. Qed.
 Theorem C04_shift_is_consequence : forall (A : Type) (h : nat) (H T : trace A), tle A H T ->
   forall (p : hf A) (s d : nat), s + d <= h -> hsat A h H T p s = true -> ssat A h H T (shift A p d) (s + d) = true.
 Proof. exact shift_consequence. Qed.
+(* a here-world that differs from the there-world at ONE state only satisfies the head formula at its origin s iff it satisfies the
+   formula shifted to that state: everything the shifted formula reads classically (double negation) lies at states where both worlds agree *)
+Theorem C04_single_state_reading : forall (A : Type) (h : nat) (H T : trace A) (p : hf A) (s d : nat), s + d <= h ->
+  (forall t a, t <> s + d -> H t a = T t a) -> hsat A h H T p s = ssat A h H T (shift A p d) (s + d).
+Proof. exact single_point. Qed.
+(* EXACTNESS at the level of equilibrium models: for any rest of the program Pi that is splittable (closed under cutting a smaller
+   here-world back to the there-world after a state), the total traces T that are equilibrium models of Pi + (head formula p at state s) are
+   exactly those of Pi + (all shifted formulas shift p d read at s+d, d = 0..h-s) - no answer set is added and none is lost *)
+Theorem C04_translation_exact : forall (A : Type) (h : nat) (U : list A) (Pi : trace A -> trace A -> Prop) (p : hf A) (s : nat) (T : trace A),
+  s <= h -> splittable A Pi -> supported A h U T -> (orig_eq A h Pi p s T <-> trans_eq A h Pi p s T).
+Proof. exact head_translation_exact. Qed.
+(* programs whose rules have bodies over the present and the past and heads in the present or the future (normal, choice and disjunctive
+   rules, constraints, bridge rules of future heads, other head formulas) are splittable *)
+Theorem C04_rules_splittable : forall (A : Type) (h : nat) (R : list (rule A)),
+  (forall r, In r R -> past_body A r /\ future_head A r /\ mono_body A r /\ mono_head A r) ->
+  forall H T m, tle A H T -> PiR A h R T T -> PiR A h R H T -> PiR A h R (trunc A H T m) T.
+Proof. exact rules_splittable. Qed.
+Theorem C04_head_formulas_are_admissible_heads : forall (A : Type) (h : nat) (b : trace A -> trace A -> nat -> bool) (q : hf A),
+  past_body A {| body := b; head := fun H T t => hsat A h H T q t |} -> mono_body A {| body := b; head := fun H T t => hsat A h H T q t |} ->
+  let r := {| body := b; head := fun H T t => hsat A h H T q t |} in past_body A r /\ future_head A r /\ mono_body A r /\ mono_head A r.
+Proof. exact head_formula_rule_admissible. Qed.
 Print Assumptions C04_shift_origin_classical.
 Print Assumptions C04_shift_is_consequence.
+Print Assumptions C04_single_state_reading.
+Print Assumptions C04_translation_exact.
+Print Assumptions C04_rules_splittable.
+Print Assumptions C04_head_formulas_are_admissible_heads.
